@@ -5,6 +5,7 @@ set -e
 cd "$(dirname "$0")"
 export CARGO_NET_OFFLINE=true
 (cd executor && cargo build --release --offline 2>&1 | tail -2)
+(cd executor && cargo build --profile plain --offline 2>&1 | tail -1)
 mkdir -p out
 for m in spec/*.tla; do
   # Counter.tla is an Apalache module (EXTENDS Apalache, not on SANY's path); it is type-checked by apalache-mc in C04
